@@ -326,22 +326,27 @@ theorem fenc_namespace_full_fails :
 
 /-! ### a filter encoder wrapped in a filter encoder -/
 
-/-- for the fields of the entry itself (no object above them) the wrapped filter encoder does what a filter
-    encoder does: `…_partial` of "the two encoders compose" -/
-theorem fenc_wrapped_encoder_top_level_partial (o : Oracles) (inner : FCfg) (k : Bytes) (v : FVal) :
-    encNode0 o inner (.leaf k v) = encNode o inner [] (.leaf k v) := by
-  simp [encNode0, encNode]
+/-- **wrapping composes** (full strength): a filter encoder wrapped in a filter encoder is the inner encoder
+    applied to what the outer encoder emits — every field meets the inner filter of its own key path, at any
+    depth (`fenc_every_field_stems_from_its_path_filter` applies to each stage). -/
+theorem fenc_wrapped_encoder_composes (o : Oracles) (outer inner : FCfg) (fields : List Node) :
+    filterEncode2 o outer inner fields = filterEncode o inner (filterEncode o outer fields) := rfl
 
-/-- FULL STATEMENT (false on the unchanged tree): wrapping composes — `filterEncode2 o outer inner = filterEncode o inner ∘
-    filterEncode o outer`.  Refuted: the outer encoder marshals the fields of an object into the inner
-    encoder's TOP-LEVEL copy, so the inner encoder looks every nested field up without its key path:
-    with no outer filter at all, the inner `request>uri → delete` does not run. -/
-theorem fenc_wrapped_encoder_full_fails :
+/-- …so each field of the result stems, through the inner filter of its path, from a field the outer encoder emitted -/
+theorem fenc_wrapped_encoder_inner_filters_by_path (o : Oracles) (outer inner : FCfg) (fields : List Node) :
+    ∀ e' ∈ flat3List [] (filterEncode2 o outer inner fields),
+      ∃ e ∈ flat3List [] (filterEncode o outer fields), StemsFrom o inner e e' :=
+  fenc_every_field_stems_from_its_path_filter o inner (filterEncode o outer fields)
+
+/-- Why fix 6641767 was needed (non-vacuity): the OLD outer encoder marshalled the fields of an object into the
+    inner encoder's TOP-LEVEL copy, so the inner encoder looked every nested field up without its key path:
+    with no outer filter at all, the inner `request>uri → delete` did not run; now it does. -/
+theorem fenc_wrapped_encoder_old_code_fails :
     ∃ (o : Oracles) (inner : FCfg) (fields : List Node) (secret : Bytes),
       lookupF inner (str "request>uri") = some .delete ∧
       visList [] fields = [(str "request>uri", .str secret)] ∧
-      listStrings (filterEncode o inner (filterEncode o [] fields)) = [str "request"] ∧
-      listStrings (filterEncode2 o [] inner fields) = [str "request", str "uri", secret] :=
+      listStrings (filterEncode2Old o [] inner fields) = [str "request", str "uri", secret] ∧
+      listStrings (filterEncode2 o [] inner fields) = [str "request"] :=
   ⟨⟨id, id, fun _ => none, fun _ => none, fun _ => [], fun _ => none, fun _ => [], fun _ => [], fun _ => []⟩,
    [(str "request>uri", .delete)], [.obj (str "request") [.leaf (str "uri") (.str (str "SECRET"))]],
    str "SECRET", by decide⟩
